@@ -32,9 +32,15 @@
 (*      D7  zstd: a feed that ends exactly on a frame end leaves a finished decompressobj behind    *)
 (*      D11 negative chunk size reaches fp.read(<0): raw ValueError / foreign bytes via read1      *)
 (*      F1  read1() (amt=None) at a cut Content-Length body closes quietly (no IncompleteRead)     *)
-(*      F2  sized read at EOF with an empty decoded buffer returns before flushing the decoder      *)
+(*      F2  the decoder is not flushed when EOF is met (a) by read(amt) with an empty decoded       *)
+(*          buffer (early return), (b) inside read(amt)'s fill loop (stale flush_decoder), (c) by   *)
+(*          stream() finding the file already closed: an incomplete zstd stream then ends normally   *)
 (*      F3  MultiDecoder.flush only flushes the first-listed decoder (stacked zstd never checked)   *)
-(*      F4  DecodeError is raised outside _error_catcher: the connection is not closed              *)
+(*      F4  DecodeError is raised outside _error_catcher: the connection is not closed (and was     *)
+(*          already handed back to the pool when the body had been received completely)             *)
+(*  - Latitude built into Next (see ReadsOk / GenOk): the six read calls and, on bodies that are    *)
+(*    not chunked, stream() steps interleave freely; read_chunked / stream on chunked bodies and    *)
+(*    iteration consume a body on their own.                                                        *)
 EXTENDS BodyRules, TLC
 
 CONSTANTS Scenarios,      \* set of [framing, coding, stacked, decode, enc, chunks]
